@@ -23,8 +23,10 @@ impl Huge {
     /// 2: dense prefix of 2^20 bits, then ones at prescribed huge gaps
     pub fn new(j: u64) -> Huge {
         let delta = [65usize, 4097, 0, 1, 64, (1 << 31) + 12345][(j / 5) as usize % 6];
-        let pattern = if j >= 3000 { 7 } else if j >= 2000 { 6 } else if j >= 1000 { 5 } else { j % 5 };
+        let pattern = if j >= 5000 { 9 } else if j >= 4000 { 8 } else if j >= 3000 { 7 } else if j >= 2000 { 6 } else if j >= 1000 { 5 } else { j % 5 };
         let len = match pattern {
+            9 => [(1usize << 32) + 9000, (1usize << 33) + 77, (1usize << 32) + (1 << 20)][(j - 5000) as usize % 3],
+            8 => (1usize << 32) + 5000 + (j - 4000) as usize % 3 * 64,
             7 => (1usize << 32) + [(1usize << 30) + 64, 1 << 20, (1usize << 31) + 12345, (1usize << 32) + 4097][(j - 3000) as usize % 4],
             6 => (1usize << 32) + (1 << 17) + [0usize, 77, 4096, 1 << 20][(j / 4) as usize % 4],
             5 => (1usize << 33) + (1 << 30) + 7 + (j as usize % 3) * 64,
@@ -82,6 +84,49 @@ impl Huge {
                 }
                 for p in [(1usize << 32) + 5, (1usize << 32) + 700, (1usize << 33) + 3, (1usize << 33) + 64, (1usize << 33) + 65, (1usize << 33) + 500, (1usize << 33) + 1000, (1usize << 33) + 70_000, len - 1] {
                     set(&mut words, p);
+                }
+            }
+            9 => {
+                // upper blocks that are empty except for their last few thousand bits (the last counter block of
+                // every RankSmall variant), then a few ones right after the boundary
+                let k = j - 5000;
+                let tail: &[usize] = [&[3usize, 37, 100][..], &[1, 600, 1500, 5000, 8100][..], &[511, 512, 513, 2047, 2049][..], &[8191, 8192, 8193, 1][..]][(k / 3) as usize % 4];
+                let mut b = 1usize << 32;
+                while b <= len {
+                    for d in tail {
+                        set(&mut words, b - d);
+                    }
+                    if (k / 12) % 2 == 0 {
+                        set(&mut words, b + 5);
+                    }
+                    b += 1usize << 32;
+                }
+                set(&mut words, len - 1);
+            }
+            8 => {
+                // an inventory entry spanning exactly 2^32 - 1, 2^32 or 2^32 + 1... + 1 bits, its last one at offset
+                // 2^32 + d from its first and directly before the first one of the next entry
+                let k = j - 4000;
+                let d = [0i64, -1, 1][k as usize % 3];
+                let a = 5usize;
+                let last = (a as i64 + (1i64 << 32) + d) as usize;
+                if (k / 3) % 2 == 0 {
+                    // tiny entries (1-4 ones per inventory entry)
+                    set(&mut words, a);
+                } else {
+                    // an entry of 4096 ones: 4095 packed at the start, the last one far away
+                    for i in 0..4095 {
+                        set(&mut words, a + i);
+                    }
+                }
+                set(&mut words, last);
+                set(&mut words, last + 1);
+                set(&mut words, last + 70);
+                set(&mut words, last + 71);
+                if (k / 6) % 2 == 1 {
+                    for w in words.iter_mut() {
+                        *w = !*w;
+                    }
                 }
             }
             7 => {
@@ -357,6 +402,46 @@ pub fn select_case(cx: &mut Ctx, j: u64) -> R {
         b - a
     };
     cx.label_if(h.num_ones < 100 && maxgap > 1 << 32, "span>2^32");
+    if j >= 5000 {
+        // (a rank pattern; the selectors see it too)
+        let s = cx.must("SelectSmall", || SelectSmall::<1, 9, _>::new(RankSmall::<1, 9, _>::new(bv.clone())))?;
+        check_select(cx, "SelectSmall<1,9>", &s, &h, seed)?;
+        check_rank(cx, "SelectSmall<1,9>", &s, &h, seed)?;
+        let s = cx.must("SelectSmall", || SelectSmall::<3, 13, _>::new(RankSmall::<3, 13, _>::new(bv.clone())))?;
+        check_select(cx, "SelectSmall<3,13>", &s, &h, seed)?;
+        check_rank(cx, "SelectSmall<3,13>", &s, &h, seed)?;
+        return Ok(());
+    }
+    if j >= 4000 {
+        let complemented = ((j - 4000) / 6) % 2 == 1;
+        cx.label("exact-2^32-spans");
+        if !complemented {
+            macro_rules! konst {
+                ($k:literal, $m:literal) => {{
+                    let s = cx.must("SelectAdaptConst", || SelectAdaptConst::<_, Box<[usize]>, $k, $m>::new(AddNumBits::from(bv.clone())))?;
+                    check_select(cx, concat!("SelectAdaptConst<", $k, ",", $m, ">"), &s, &h, seed)?;
+                }};
+            }
+            konst!(12, 3);
+            konst!(1, 0);
+            konst!(2, 1);
+            konst!(0, 0);
+            for (k, m) in [(12usize, 3usize), (1, 0), (2, 2), (0, 0), (13, 0)] {
+                let s = cx.must("SelectAdapt::with_inv", || SelectAdapt::with_inv(AddNumBits::from(bv.clone()), k, m))?;
+                check_select(cx, &format!("SelectAdapt::with_inv({k},{m})"), &s, &h, seed)?;
+            }
+        } else {
+            let z = cx.must("SelectZeroAdaptConst", || SelectZeroAdaptConst::<_, Box<[usize]>, 12, 3>::new(AddNumBits::from(bv.clone())))?;
+            check_select_zero(cx, "SelectZeroAdaptConst<12,3>", &z, &h, seed)?;
+            let z = cx.must("SelectZeroAdaptConst", || SelectZeroAdaptConst::<_, Box<[usize]>, 1, 0>::new(AddNumBits::from(bv.clone())))?;
+            check_select_zero(cx, "SelectZeroAdaptConst<1,0>", &z, &h, seed)?;
+            for (k, m) in [(12usize, 3usize), (1, 0), (2, 2)] {
+                let z = cx.must("SelectZeroAdapt::with_inv", || SelectZeroAdapt::with_inv(AddNumBits::from(bv.clone()), k, m))?;
+                check_select_zero(cx, &format!("SelectZeroAdapt::with_inv({k},{m})"), &z, &h, seed)?;
+            }
+        }
+        return Ok(());
+    }
     if j >= 3000 {
         cx.label("dense-two-upper-blocks");
         macro_rules! small {
